@@ -9,11 +9,11 @@ import (
 )
 
 func main() {
-	if len(os.Args) != 3 {
-		fmt.Fprintln(os.Stderr, "usage: vinstr <repo> <outdir>")
+	if len(os.Args) < 3 {
+		fmt.Fprintln(os.Stderr, "usage: vinstr <repo> <outdir> [wide]")
 		os.Exit(2)
 	}
-	res, err := instr.Generate(os.Args[1], os.Args[2])
+	res, err := instr.Generate(os.Args[1], os.Args[2], len(os.Args) > 3)
 	if err != nil {
 		fmt.Fprintln(os.Stderr, "vinstr:", err)
 		os.Exit(2)
